@@ -100,7 +100,7 @@ pub struct FollowVerdict {
 }
 
 /// The C10 oracle for one start offset. `final_content` is the file at the end of the run.
-fn check_from(log: &[Event], deliveries: &[Delivery], final_content: &[u8], x0: usize, finished: bool) -> Result<(), FollowVerdict> {
+fn check_from(log: &[Event], deliveries: &[Delivery], final_content: &[u8], x0: usize, finished: bool, live_until: Option<usize>) -> Result<(), FollowVerdict> {
     let stream = &final_content[x0.min(final_content.len())..];
     let expected = complete_lines(stream);
     // end offset (absolute, after the newline) of each expected line
@@ -132,6 +132,9 @@ fn check_from(log: &[Event], deliveries: &[Delivery], final_content: &[u8], x0: 
     // completeness at quiescent points
     let mut prev_ret: Option<i64> = None;
     for (seq, e) in log.iter().enumerate() {
+        if live_until.map(|stop| seq >= stop).unwrap_or(false) {
+            break;
+        }
         if e.kind == EvKind::Read && e.file == 0 {
             if prev_ret == Some(0) && e.landed == 0 {
                 let served = served_before(log, seq);
@@ -157,9 +160,14 @@ fn check_from(log: &[Event], deliveries: &[Delivery], final_content: &[u8], x0: 
 
 /// C10 oracle over all admissible start offsets. Returns the start offset that satisfied it.
 pub fn check_follow(log: &[Event], deliveries: &[Delivery], final_content: &[u8], head: bool, finished: bool) -> Result<usize, FollowVerdict> {
+    check_follow_until(log, deliveries, final_content, head, finished, None)
+}
+
+/// As `check_follow`; timeliness at quiescent points is demanded only before event `live_until` (the interrupt).
+pub fn check_follow_until(log: &[Event], deliveries: &[Delivery], final_content: &[u8], head: bool, finished: bool, live_until: Option<usize>) -> Result<usize, FollowVerdict> {
     let mut first_err = None;
     for x0 in start_candidates(log, head) {
-        match check_from(log, deliveries, final_content, x0, finished) {
+        match check_from(log, deliveries, final_content, x0, finished, live_until) {
             Ok(()) => return Ok(x0),
             Err(v) => {
                 if first_err.is_none() {
